@@ -14,7 +14,7 @@
    (Spec/Rounding.v): z' is v rounded once to p digits under mode m with the
    truthful accuracy. *)
 From Coq Require Import ZArith QArith List.
-From Dec Require Import Base.Words Base.QPow L3.Decimal L3.Round L3.Arith Spec.Rounding L4.Scan L4.ScanProofs L4.Toa L4.ToaProofs.
+From Dec Require Import Base.Words Base.QPow L3.Decimal L3.Round L3.Arith Spec.Rounding L4.Scan L4.ScanProofs L4.Toa L4.ToaProofs L4.Pow2Proofs.
 Import ListNotations.
 Open Scope Z_scope.
 
@@ -60,16 +60,16 @@ Theorem C12_parse10_literal : forall z ng I F fch sg eds,
 Proof. exact parse_efloat. Qed.
 Print Assumptions C12_parse10_literal.
 
-(* Totality: for the five legal bases and every byte string shorter than 2^30,
-   Parse neither panics nor raises ErrNaN, and every error comes with a nil
-   result (`pgood`) - for every input that does not take the binary-exponent
-   path (Pow2PathTotal is the same claim for the tail of Decimal.scan that
-   calls pow2/Mul/Quo; see C12_total below). *)
-Theorem C12_total_decimal : forall z s base,
-  valid_base base = true -> zlen s < 1073741824 -> 0 <= prec z <= 2147483648 ->
-  Pow2PathTotal -> pgood (Parse z s base).
-Proof. exact Parse_total. Qed.
-Print Assumptions C12_total_decimal.
+(* Totality: for the five legal bases, every byte string shorter than 2^29 and
+   every receiver precision up to 2^30, Parse neither panics nor raises ErrNaN,
+   and every error comes with a nil result (`pgood`: the result is POk, or
+   PErr with dnil = true).  This includes the binary-exponent path through
+   pow2 / Mul / Quo. *)
+Theorem C12_total : forall z s base,
+  valid_base base = true -> zlen s < 536870912 -> 0 <= prec z <= 1073741824 ->
+  pgood (Parse z s base).
+Proof. exact Parse_total_full. Qed.
+Print Assumptions C12_total.
 
 (* the scanners always return, with a legal base and bounded results *)
 Theorem C12_scan_total : forall base r, valid_base base = true ->
@@ -80,17 +80,6 @@ Proof. exact dec_scan_facts. Qed.
 Print Assumptions C12_scan_total.
 
 (* NOT CLOSED (kept with their full statements):
-
-   C12_total : forall z s base, valid_base base = true -> zlen s < 1073741824 ->
-     0 <= prec z <= 2147483648 -> pgood (Parse z s base).
-   Missing: `Pow2PathTotal`, i.e. that scan_finish with exp2 <> 0
-   (SetPrec, pow2's square-and-multiply loop of L3 Mul, then Mul or Quo of a
-   mantissa that is longer than the receiver precision) returns OkR for every
-   normalised mantissa.  It needs the invariant "well-formed, positive, finite
-   or +Inf, at most prec+18 digits" through pow2_loop; the L3 theorems
-   (Mul_correct, Quo_correct) give WF but no bound on the mantissa length.
-   Covered by correspondence only (C12 families binary-exponent,
-   binary-representable, literal-b2/b8/b16).
 
    C12_accepts : forall s base, (exists z' b, Parse z s base = POk z' b []) <-> Grammar base s
    for an inductive transcription of the EBNF.  Not attempted; the acceptance
